@@ -215,8 +215,12 @@ func (r *TimeRange) IsInSameRange(t1, t2 time.Time) bool {
 		}
 	}
 
-	sessionEnd := time.Date(t1.Year(), t1.Month(), t1.Day(), r.endTime.hour, r.endTime.minute, r.endTime.second, 0, r.loc)
-	sessionEnd = sessionEnd.AddDate(0, 0, dayOffset)
+	// Compare on the local clock (both readings taken as UTC wall times): building sessionEnd in r.loc moves an
+	// end time that a daylight-saving transition skips, and AddDate would keep the moved clock reading.
+	t2 = t2.In(r.loc)
+	h2, m2, s2 := t2.Clock()
+	t2Wall := time.Date(t2.Year(), t2.Month(), t2.Day(), h2, m2, s2, t2.Nanosecond(), time.UTC)
+	sessionEnd := time.Date(t1.Year(), t1.Month(), t1.Day()+dayOffset, r.endTime.hour, r.endTime.minute, r.endTime.second, 0, time.UTC)
 
-	return t2.Before(sessionEnd)
+	return t2Wall.Before(sessionEnd)
 }
